@@ -1295,6 +1295,9 @@ def norm_bv(m):
     return (simp(subst(body, {bv: z})), base, tuple(simp(subst(c, {bv: z})) for c in ifs))
 
 
+_RE_NARGS = {"sub": (2, 3), "subn": (2, 3), "split": (1, 2), "findall": (1, 1), "finditer": (1, 1), "search": (1, 1), "match": (1, 1), "fullmatch": (1, 1)}
+
+
 def simp(v):
     """Bottom-up simplification with the two rewrite rules of DESIGN E2."""
     if not isinstance(v, tuple) or not v:
@@ -1333,6 +1336,11 @@ def simp(v):
         # getattr(x, "name") is x.name
         if fn == "getattr" and len(args) == 2 and args[1][0] == "const" and isinstance(args[1][1], str) and args[1][1].isidentifier():
             return ("attr", args[0], args[1][1])
+    # re.compile(P).finditer(s) is re.finditer(P, s): a scan through a compiled pattern (held in a local, say) and through the
+    # module-level function are the same scan (only with the arguments both spellings take: no pos / endpos)
+    if k == "meth" and v[1][0] == "call" and v[1][1] == ("attr", ("global", "re"), "compile") and len(v[1][2]) == 1 and not v[1][3] and not v[4] \
+            and v[2] in _RE_NARGS and _RE_NARGS[v[2]][0] <= len(v[3]) <= _RE_NARGS[v[2]][1]:
+        return ("meth", ("global", "re"), v[2], (v[1][2][0],) + tuple(v[3]), ())
     # "ab" * 3
     if k == "binop" and v[1] == "Mult" and {v[2][0], v[3][0]} == {"const"}:
         a, b = v[2][1], v[3][1]
